@@ -21,6 +21,7 @@ KNOBS = {
             Knobs(undefined_rate=10, fail_rate=0, max_targets=5, checkpoint=True),
             Knobs(undefined_rate=10, fail_rate=0, max_targets=5, slash=True),
             Knobs(undefined_rate=10, fail_rate=0, max_targets=4, listener=True),
+            Knobs(undefined_rate=5, fail_rate=0, max_targets=5, checkpoint=True, commit_range=True, force_mode=0),
             Knobs(undefined_rate=5, fail_rate=0, max_targets=6, force_mode=2, dense=True),
             Knobs(undefined_rate=5, fail_rate=0, max_targets=6, force_mode=2, slow_deps=False, dense=True)],
     "C06": [Knobs(fail_rate=15, notexec_rate=8, undefined_rate=15, redirect_rate=10), Knobs(delays=True, fail_rate=0, undefined_rate=10),
